@@ -70,7 +70,25 @@ def _mk_filter(ev, st, prog, **over):
              'previous_velocity': C.mk_vec(ev, st, prog, 'pvx', 'pvy', 'pvz'), 'previous_v_mach': S('pvm'),
              'look_angle': S('L')}
     attrs.update(over)
-    return ev.new_inst(st, fc, attrs)
+    # built by its own __init__, so that whatever else the class keeps gets its real initial value; then the attributes the
+    # rules speak about are set - each must exist under its name, or the layout of the filter is not the one the rules read
+    init = prog.find_method(fc, '__init__')
+    if init is None or len(init.positional) < 5:
+        raise AnalysisError('_TrajectoryDataFilter.__init__ no longer takes (flags, range step, position, velocity[, time step])')
+    try:
+        obj = ev.construct(fc, [attrs['filter'], attrs['range_step'], attrs['previous_position'], attrs['previous_velocity']],
+                           {init.positional[5]: attrs['time_step']} if len(init.positional) > 5 else {}, st, Ctx(prog.module(C.M_TC), None, None, 0))
+    except Undecided as exc:
+        raise AnalysisError(f'_TrajectoryDataFilter.__init__: {exc}') from exc
+    if not isinstance(obj, Inst):
+        raise AnalysisError(f'_TrajectoryDataFilter(...) evaluates to {obj!r}')
+    h = st.heap[obj.oid]
+    missing = [k for k in attrs if k not in h]
+    if missing:
+        raise AnalysisError(f'the recording filter keeps no attribute(s) {missing} after construction: its state is laid out otherwise than '
+                            f'the rules read it')
+    h.update(attrs)
+    return obj
 
 
 def run(prog: Program, rep, thorough: bool) -> None:
